@@ -142,13 +142,24 @@ def check(ctx):
                     seen_shapes.add(cid(l))
                     ok = isinstance(l, Sub) and len(sliced) == 1 and cid(sliced[0]) == cid(l)
                     if ok:
-                        up = strip(l.index.upper)
-                        ok = isinstance(up, Bin) and up.op == '-' and \
-                            is_call(strip(up.left), 'len') and \
-                            is_call(strip(up.right), 'len') and \
-                            alt_ids(strip(up.left).args[0]) == alt_ids(l.base) and \
-                            (l.index.lower is None or is_const(strip(l.index.lower), 0)) and \
-                            alt_ids(strip(up.right).args[0]) == alt_ids(top.right)
+                        def truncating(up):
+                            up = strip(up)
+                            return isinstance(up, Bin) and up.op == '-' and \
+                                is_call(strip(up.left), 'len') and \
+                                is_call(strip(up.right), 'len') and \
+                                alt_ids(strip(up.left).args[0]) == alt_ids(l.base) and \
+                                alt_ids(strip(up.right).args[0]) == alt_ids(top.right)
+
+                        def whole(up):
+                            up = strip(up)
+                            return is_call(up, 'len') and \
+                                alt_ids(up.args[0]) == alt_ids(l.base)
+                        ups = flat(l.index.upper)
+                        # (the bound may be chosen by a conditional expression: the whole
+                        # name when it fits, the truncating bound when it was too long)
+                        ok = (l.index.lower is None or is_const(strip(l.index.lower), 0)) and \
+                            any(truncating(u) for u in ups) and \
+                            all(truncating(u) or whole(u) for u in ups)
                     ctx.ob('R17.6', 'the name retried after ENAMETOOLONG is '
                                     'X[:len(X)-len(suffix)] + suffix', ok, node=o,
                            message='after "name too long" the next name is built from %s: it '
